@@ -18,7 +18,7 @@ import (
 func init() {
 	vfRegister(&vfProp{
 		id:       "C01",
-		classes:  []string{"os", "os-alloc", "rs", "rs-alloc", "peer", "rs-park"},
+		classes:  []string{"os", "os-alloc", "rs", "rs-alloc", "peer", "rs-park", "inmem"},
 		gen:      c01Gen,
 		exec:     c01Exec,
 		maxSteps: 200000,
@@ -153,6 +153,9 @@ func c01Gen(class string, seed uint64, tier string) *vfScenario {
 		sc.Cfg["eofstyle"] = int64(rng.IntN(3))
 	case "peer":
 		sc.Cfg["kind"] = 2
+	case "inmem":
+		sc.Cfg["kind"] = 3 // the package's own in-memory backend behind a RequestServer
+		sc.Cfg["alloc"] = int64(rng.IntN(2))
 	}
 	if sc.Cfg["kind"] == 1 {
 		sc.Cfg["hopt"] = 1 // OpenFile: read and write on one handle
@@ -179,6 +182,9 @@ func c01Gen(class string, seed uint64, tier string) *vfScenario {
 		nops = 1 + rng.IntN(2)
 	}
 	sc.Ops = c01GenOps(rng, P, M, nops, false)
+	if class == "inmem" {
+		c01NoEmptyWrites(sc.Ops)
+	}
 	if rng.IntN(4) == 0 {
 		// a read-only handle (the request server serves it through a different path than a read-write one)
 		sc.Cfg["rdonly"] = 1
@@ -195,6 +201,27 @@ func c01Gen(class string, seed uint64, tier string) *vfScenario {
 		sc.Ops = ro
 	}
 	return sc
+}
+
+// c01NoEmptyWrites: the package's in-memory example backend extends a file when a zero-length write names an offset
+// beyond its end (a regular file does not; that is the example store's own semantics, not the transfer's, and says
+// nothing about what the client and server moved), so programs for that backend contain no zero-length writes.
+func c01NoEmptyWrites(ops []vfOp) {
+	for i := range ops {
+		if (ops[i].K == "write" || ops[i].K == "writeat") && ops[i].N == 0 {
+			ops[i].N = 1
+		}
+	}
+}
+
+// c01HasEmptyWrite: true for programs (shrunk ones) outside that domain.
+func c01HasEmptyWrite(ops []vfOp) bool {
+	for _, op := range ops {
+		if (op.K == "write" || op.K == "writeat") && op.N == 0 {
+			return true
+		}
+	}
+	return false
 }
 
 // vfFileSystem wires a real Client to one of: os-backed Server, RequestServer on simfs, scripted peer.
@@ -249,7 +276,10 @@ func vfStartFileSystem(r *vfRun, initial []byte) (*vfFileSystem, error) {
 		if alloc {
 			opts = append(opts, vfRSAllocOpt())
 		}
-		rs := NewRequestServer(srv.end, h, opts...)
+		if maxTx != 0 {
+			opts = append(opts, WithRSMaxTxPacket(maxTx))
+		}
+		rs := NewRequestServer(srv.end, h, vfShuffleOpts(opts)...)
 		srv.rs = rs
 		go func() {
 			err := rs.Serve()
@@ -448,6 +478,10 @@ func c01Exec(r *vfRun) {
 				return
 			}
 		}
+	}
+	if v.kind == 3 && c01HasEmptyWrite(sc.Ops) {
+		r.res.Skipped = "invalid-program"
+		return
 	}
 	prog := append([]vfOp{{K: "open", P: v.name, H: 0, A: openFlags}}, sc.Ops...)
 	results := make([]*vfOpResult, len(prog))
